@@ -24,7 +24,7 @@ from ..cfg import cfg_of
 from ..flow import deref, flow_of, path_of
 from ..loader import FUNC, AnalysisError, last_name, short, walk_local
 from ..loader import _is_log_stmt
-from ..util import REPEX, TIS, kwarg, oriented
+from ..util import REPEX, TIS, kwarg, loops_of, oriented
 from ..variants import B, K
 
 EXPLANATION = (
@@ -1131,6 +1131,44 @@ def r105(ctx):
                 if len(c.args) < 3:
                     continue
                 sites.append((f"{fname} ({what})", c, (_term(gfl, c.args[1], at, info), _term(gfl, c.args[2], at, info)), None))
+    # (d) the zero swap: intf_w = [list(ens0 interfaces), list(ens1 interfaces)], cap stored into component 2 of
+    #     every element in a loop, then handed to compute_weight / high_acc_swap (which forwards to compute_weight)
+    rz = tree.func(TIS, "retis_swap_zero")
+    rfl = flow_of(rz)
+    wdefs = [n for n in walk_local(rz) if isinstance(n, ast.Assign) and len(n.targets) == 1 and isinstance(n.targets[0], ast.Name) and isinstance(n.value, (ast.List, ast.Tuple))
+             and n.value.elts and all(isinstance(x, ast.Call) and last_name(x) in ("list", "tuple") and x.args and ast.unparse(x.args[0]).replace("'", '"').endswith('["interfaces"]') for x in n.value.elts)]
+    if len(wdefs) == 1:
+        W = wdefs[0].targets[0].id
+        nel = len(wdefs[0].value.elts)
+        stores = [n for n in walk_local(rz) if isinstance(n, ast.Assign) and len(n.targets) == 1 and isinstance(n.targets[0], ast.Subscript) and isinstance(n.targets[0].value, ast.Subscript)
+                  and isinstance(n.targets[0].value.value, ast.Name) and n.targets[0].value.value.id == W]
+        cap_ok = False
+        why = "the cap is never stored into the interface triples"
+        for st in stores:
+            t = st.targets[0]
+            k = t.slice.value if isinstance(t.slice, ast.Constant) else None
+            idxv = ast.unparse(t.value.slice)
+            v, _ = deref(rfl, st.value, rfl.cfg.node_of(st))
+            isget = isinstance(v, ast.Call) and isinstance(v.func, ast.Attribute) and v.func.attr == "get" and len(v.args) == 2 and isinstance(v.args[0], ast.Constant) and v.args[0].value == "interface_cap"
+            dflt = ast.unparse(v.args[1]).replace(" ", "") if isget else None
+            loops = [l for l in loops_of(st) if isinstance(l, ast.For)] if "loops_of" in globals() else []
+            if k == 2 and isget and dflt == f"{W}[{idxv}][2]":
+                cap_ok = True
+            else:
+                why = f"`{short(st, 60)}` does not store `cap, else component 2` into component 2 of each triple"
+        uses = [c for c in walk_local(rz) if isinstance(c, ast.Call) and last_name(c) in ("compute_weight", "high_acc_swap")]
+        for c in uses:
+            if cap_ok:
+                ctx.ok(rid, c, f"retis_swap_zero: {last_name(c)} receives the ensembles' triples with component 2 = cap, else last interface")
+            else:
+                ctx.bad(rid, c, f"retis_swap_zero hands {last_name(c)} interface triples whose right bound is not `cap, else the ensemble's last interface` ({why}): the weights used by the zero swap describe another region than the weights in the state matrix", construct=f"retis_swap_zero: triples for {last_name(c)}")
+        hs = tree.func(TIS, "high_acc_swap")
+        hps = [a.arg for a in hs.args.args]
+        fw = [c for c in walk_local(hs) if isinstance(c, ast.Call) and last_name(c) == "compute_weight" and len(c.args) >= 3]
+        if fw and all(isinstance(c.args[1], ast.Name) and c.args[1].id in hps for c in fw):
+            ctx.ok(rid, fw[0], "high_acc_swap forwards the triples it is given to compute_weight unchanged")
+        elif fw:
+            ctx.bad(rid, fw[0], "high_acc_swap does not forward the interface triples it is given to compute_weight", construct="high_acc_swap: triples")
     if len(sites) < 3:
         raise AnalysisError(f"R-10.5: only {len(sites)} of the three call chains into the wire-fencing scan were found")
     for name, c, lr, se in sites:
@@ -1244,5 +1282,7 @@ VARIANTS = [
     B("c10-statematrix-weight-ignores-cap", TIS, "            intfs = [interfaces[0], intf_i, intf_cap]", "            intfs = [interfaces[0], intf_i, interfaces[-1]]", "R-10.5", control=True),
     B("c10-acceptance-weight-ignores-cap", TIS, '    if move == "wf":\n        intf[2] = ens_set["tis_set"].get("interface_cap", intf[2])\n', "", "R-10.5"),
     B("c10-selection-from-outer-left", TIS, "        trial_path, wf_int[0], wf_int[2], return_seg=True, ens_set=ens_set", '        trial_path, ens_set["interfaces"][0], wf_int[2], return_seg=True, ens_set=ens_set', "R-10.5"),
+    B("c10-zero-swap-cap-into-wrong-component", TIS, '        intf_w[i][2] = mc_move.get("interface_cap", intf_w[i][2])', '        intf_w[i][1] = mc_move.get("interface_cap", intf_w[i][1])', "R-10.5"),
+    B("c10-zero-swap-weights-ignore-cap", TIS, '    for i, mc_move in enumerate([ens_set0["tis_set"], ens_set1["tis_set"]]):\n        intf_w[i][2] = mc_move.get("interface_cap", intf_w[i][2])\n', '', "R-10.5"),
     K("c10-keep-selection-bounds-direct", TIS, "        trial_path, wf_int[0], wf_int[2], return_seg=True, ens_set=ens_set", '        trial_path, ens_set["interfaces"][1], intf_cap, return_seg=True, ens_set=ens_set'),
 ]
